@@ -229,6 +229,14 @@ def class_level_state():
 
 def canon_world(w, skip_attrs=()):
     cls_state = class_level_state()
+    # the public observation is part of the form as well: whatever private representation the library
+    # uses (one this walk might not see into), two worlds that look different through the public
+    # accessors are different states, so a representation change can never collapse the exploration
+    try:
+        o = observe(w)
+        public = tuple((k, repr(o[k])) for k in sorted(o))
+    except Exception as e:  # noqa: BLE001
+        public = ("observation-raised", type(e).__name__)
     return (
         bool(w.flag),
         tuple((c, n) for c, n, _ in cls_state),
@@ -238,6 +246,7 @@ def canon_world(w, skip_attrs=()):
             skip_attrs=skip_attrs,
             registered=is_registered,
         ),
+        public,
     )
 
 
